@@ -95,7 +95,7 @@ func (r *runner) wants(what string) bool {
 		return what != "panic"
 	case "survive":
 		// the peer-input part of the statement: malformed input must be answered (handler outcomes are C03's)
-		return what == "panic" || what == "peer-problem" || strings.HasPrefix(what, "unserved-") || strings.HasPrefix(what, "unparsable-")
+		return what == "panic" || what == "aborted" || what == "peer-problem" || strings.HasPrefix(what, "unserved-") || strings.HasPrefix(what, "unparsable-")
 	}
 	return what == "peer-problem"
 }
@@ -134,6 +134,11 @@ func (r *runner) exchange(t Target, c Case, in Input) Observed {
 				What:  fmt.Sprintf("%s server, input class %q: %s %s", t.Kind(), c.Exp.Class, f.what, f.detail),
 				Input: describe(t, c, in), Observed: o.Outcome(), Expected: expectText(c.Exp)})
 		}
+	}
+	if st, ok := t.(*streamable); ok && o.Framing != "" && o.Body != nil {
+		// a request was answered: the Accept header chose the framing (responder.go createResponder -> ParseAcceptHeader)
+		r.s.Emit(map[string]any{"c": r.f.Comp + ".accept", "postSSE": st.cfg.PostSSE, "hdr": st.headers(in)["Accept"]},
+			map[string]any{"sse": o.Framing == "sse", "panic": false}, true, "accept-framing", "server:"+t.Name())
 	}
 	if r.f.Kind == "wf" {
 		r.wfLines(t, c, in, o)
@@ -323,34 +328,7 @@ func (r *runner) httpCases(t Target) {
 				}
 			}
 		}
-		// garbage headers (those a Go http.Client can put on the wire)
-		for i, h := range []map[string]string{
-			{"Content-Type": "text/plain"}, {"Content-Type": ""}, {"Content-Type": "application/json; charset=\"x"}, {"Accept": "*/*"}, {"Accept": ";;;,,,"},
-			{"Accept": "text/event-stream;q=0"}, {"Mcp-Session-Id": strings.Repeat("a", 6000)}, {"Mcp-Session-Id": "a b\tc"}, {"Last-Event-ID": "evt-x-y"},
-			{"Content-Encoding": "gzip"}, {"X-Forwarded-For": "999.999.999.999"}, {"Mcp-Protocol-Version": "garbage"}, {"Authorization": "Bearer " + strings.Repeat("x", 3000)},
-		} {
-			ref := "none"
-			if x.cfg.Mode == "stateful" {
-				ref = "s0"
-			}
-			in := Input{Verb: "POST", Path: "ok", Ref: ref, Body: bodies[0].b, Hdr: h}
-			e := expOf("streamable", "POST", "ok", ref, "ping", x.cfg.Mode)
-			if _, over := h["Mcp-Session-Id"]; over {
-				// the header replaces the session reference: an unknown session in stateful mode
-				in.Ref = "bogus"
-				in.Hdr = nil
-				if x.cfg.Mode != "stateful" {
-					in.Ref, in.Hdr = "none", h
-				} else {
-					continue
-				}
-			}
-			if _, acc := h["Accept"]; acc {
-				e.Class = "free" // the Accept header chooses the answer's representation
-				continue
-			}
-			r.exchange(t, Case{Label: fmt.Sprintf("http:header-%d", i), Exp: e, Tags: []string{"http-level", "garbage-header"}}, in)
-		}
+		r.headerCases(x, expOf)
 	case *sseTarget:
 		for _, verb := range []string{"POST", "GET", "DELETE", "PUT"} {
 			for _, path := range []string{"message", "sse", "other"} {
@@ -372,6 +350,83 @@ func (r *runner) httpCases(t Target) {
 				}
 			}
 		}
+	}
+}
+
+// headerCases: request headers from their grammars, each with bodies of every kind (the Accept parser is reached only by a
+// POST whose body carries a request).
+func (r *runner) headerCases(x *streamable, expOf func(kind, verb, path, ref, bl, mode string) Expect) {
+	ref := "none"
+	if x.cfg.Mode == "stateful" {
+		ref = "s0"
+	}
+	type body struct {
+		l string
+		b []byte
+		e Expect
+	}
+	reqBody := body{"request", []byte(`{"jsonrpc":"2.0","id":11,"method":"ping"}`), expOf("streamable", "POST", "ok", ref, "ping", x.cfg.Mode)}
+	others := []body{
+		{"request-string-id", []byte(`{"jsonrpc":"2.0","id":"h","method":"tools/list"}`), Expect{Class: "result", Method: "tools/list", HasID: true, ID: Str("h"), Req: true}},
+		{"request-null-id", []byte(`{"jsonrpc":"2.0","id":null,"method":"ping"}`), Expect{Class: "free", Method: "ping", Req: true}},
+		{"notification", []byte(`{"jsonrpc":"2.0","method":"notifications/verif","params":{"a":1}}`), Expect{Class: "notification"}},
+		{"response", []byte(`{"jsonrpc":"2.0","id":13,"result":{}}`), Expect{Class: "response"}},
+		{"garbage", []byte(`{"jsonrpc":`), Expect{Class: "unparsable"}},
+	}
+	send := func(label string, b body, in Input) {
+		in.Body = b.b
+		r.exchange(x, Case{Label: label + ":" + b.l, Exp: b.e, Tags: []string{"http-level", "header-grammar"}}, in)
+	}
+	for i, h := range AcceptHeaders(r.rng, r.thorough) {
+		in := Input{Verb: "POST", Path: "ok", Ref: ref, Hdr: map[string]string{"Accept": h}}
+		send(hdrLabel("accept", i, h), reqBody, in)
+		if r.thorough || i%4 == 0 {
+			for _, b := range others {
+				send(hdrLabel("accept", i, h), b, in)
+			}
+		}
+	}
+	for i, h := range ContentTypeHeaders() {
+		for _, acc := range []bool{false, true} {
+			in := Input{Verb: "POST", Path: "ok", Ref: ref, Accept: acc, Hdr: map[string]string{"Content-Type": h}}
+			send(hdrLabel("content-type", i, h), reqBody, in)
+			for _, b := range others {
+				send(hdrLabel("content-type", i, h), b, in)
+			}
+		}
+	}
+	if sid, ok := x.sids["s0"]; ok {
+		for _, m := range SessionHeaderMutations(sid) {
+			in := Input{Verb: "POST", Path: "ok", Ref: "bogus", Accept: true, Hdr: map[string]string{"Mcp-Session-Id": m.Value}}
+			bs := append([]body{reqBody}, others...)
+			for _, b := range bs {
+				if m.Resolves {
+					in.Ref = "s0"
+				} else if b.e.Class != "unparsable" {
+					b.e = Expect{Class: "unserved", Cause: "session-bogus", Req: b.e.Req}
+				}
+				send("header:session:"+m.Label, b, in)
+			}
+			// the same on the other verbs that read the header
+			for _, verb := range []string{"GET", "DELETE"} {
+				if m.Resolves && verb == "DELETE" {
+					continue // would end the session the run depends on
+				}
+				gin := Input{Verb: verb, Path: "ok", Ref: in.Ref, Hdr: in.Hdr}
+				r.exchange(x, Case{Label: "header:session:" + m.Label + ":" + verb, Exp: Expect{Class: "free"}, Tags: []string{"http-level", "header-grammar", "verb:" + verb}}, gin)
+			}
+		}
+	}
+	for i, h := range LastEventIDs() {
+		in := Input{Verb: "GET", Path: "ok", Ref: ref, Accept: true, Hdr: map[string]string{"Last-Event-ID": h}}
+		r.exchange(x, Case{Label: hdrLabel("last-event-id", i, h), Exp: Expect{Class: "free"}, Tags: []string{"http-level", "header-grammar", "verb:GET"}}, in)
+		pin := Input{Verb: "POST", Path: "ok", Ref: ref, Accept: true, Hdr: map[string]string{"Last-Event-ID": h}}
+		send(hdrLabel("last-event-id", i, h), reqBody, pin)
+	}
+	// headers nobody reads, and oversized ones
+	for i, h := range []map[string]string{{"Content-Encoding": "gzip"}, {"X-Forwarded-For": "999.999.999.999"}, {"Mcp-Protocol-Version": "garbage"},
+		{"Authorization": "Bearer " + strings.Repeat("x", 3000)}, {"Mcp-Protocol-Version": ";q"}, {"Cookie": ";;;"}} {
+		send(fmt.Sprintf("header:other:%d", i), reqBody, Input{Verb: "POST", Path: "ok", Ref: ref, Hdr: h})
 	}
 }
 
@@ -406,8 +461,56 @@ func (r *runner) runWF() {
 		r.httpCases(t)
 		t.Close()
 	}
+	r.filtered()
+	r.longTexts()
 	r.pipelined(reg)
 	r.s.SetExtra("cases", map[string]any{"mutation+other+garbage": len(cs)})
+}
+
+// filtered: servers configured with list filters — hiding everything (returning a nil slice / an empty one), hiding some
+// entries, keyed on a value the context function takes from a request header — on every server kind that has the option
+// (the stdio server has none). The emitted messages are judged like all others: model line, schema oracle, wfMsg.
+func (r *runner) filtered() {
+	base := Registries["full"]
+	n := 0
+	for _, variant := range []string{"hide-all-nil", "hide-all-empty", "hide-some", "ctx"} {
+		reg := base.Filtered(variant)
+		ts, err := r.targets(reg, "st-json", "st-sse", "stateless", "nosession", "sse")
+		if err != nil {
+			r.fail("setup-filter-"+variant, err)
+			return
+		}
+		roles := []string{""}
+		if variant == "ctx" {
+			roles = []string{"", "admin", "some", "nobody"}
+		}
+		reqs := []baseReq{
+			{"tools/list", "tools/list", nil}, {"tools/list-cursor", "tools/list", vp(Obj(F("cursor", Str("x"))))}, {"prompts/list", "prompts/list", nil},
+			{"resources/list", "resources/list", vp(Obj())}, {"resources/templates/list", "resources/templates/list", nil},
+			{"initialize", "initialize", initParams("2025-03-26")},
+			// what a filter hides can still be used by name: the filters are about the lists only
+			{"tools/call:text", "tools/call", vp(Obj(F("name", Str("text"))))}, {"prompts/get:p-ok", "prompts/get", vp(Obj(F("name", Str("p-ok"))))},
+			{"resources/read:text", "resources/read", vp(Obj(F("uri", Str("verif://r/text"))))},
+		}
+		for _, t := range ts {
+			for _, role := range roles {
+				for i, b := range reqs {
+					c := mkCase(reg, fmt.Sprintf("filter:%s:role=%s:%s", variant, role, b.label), wfIDs[i%4], b, "list-filter", "filter:"+variant)
+					in, ok := deliver(t, c.Body)
+					if !ok {
+						continue
+					}
+					if role != "" {
+						in.Hdr = map[string]string{RoleHeader: role}
+					}
+					r.exchange(t, c, in)
+					n++
+				}
+			}
+			t.Close()
+		}
+	}
+	r.s.SetExtra("list_filter_exchanges", n)
 }
 
 // ---- C14
@@ -695,6 +798,12 @@ func (r *runner) surviveOn(t Target, cs []Case, mk func() (Target, error)) {
 		check("raw TCP garbage")
 		lap("rawtcp")
 	}
+	if r.dead[t] {
+		return
+	}
+	r.record = false
+	r.stalledPeer(t)
+	lap("stalled peer")
 	if r.dead[t] {
 		return
 	}
